@@ -160,9 +160,27 @@ def field_format_pairs():
     return out
 
 
+def variant_format_pairs(prefix="c06_flat"):
+    """An enum in which SOME variants carry their own `#[debug("..")]`: the variants without attribute, declared before and after them, still print
+    exactly as under std's derive (seed C02-debug-variant-fmt-carries-over reused the previous variant's format)."""
+    dm = ("#[derive(derive_more::Debug)]\npub enum E { Plain, #[debug(\"custom<{_0:?}>\")] Custom(Probe), After, AfterTuple(Probe), "
+          "#[debug(\"n={a}\")] OwnNamed { a: Probe }, AfterNamed { a: Probe, b: Probe } }")
+    sd = ("pub enum E { Plain, Custom(Probe), After, AfterTuple(Probe), OwnNamed { a: Probe }, AfterNamed { a: Probe, b: Probe } }\n"
+          "impl fmt::Debug for E {\n    fn fmt(&self, f: &mut fmt::Formatter<'_>) -> fmt::Result {\n        match self {\n"
+          "            E::Plain => f.write_str(\"Plain\"),\n            E::Custom(_0) => write!(f, \"custom<{_0:?}>\"),\n"
+          "            E::After => f.write_str(\"After\"),\n            E::AfterTuple(x) => f.debug_tuple(\"AfterTuple\").field(x).finish(),\n"
+          "            E::OwnNamed { a } => write!(f, \"n={a}\"),\n"
+          "            E::AfterNamed { a, b } => f.debug_struct(\"AfterNamed\").field(\"a\", a).field(\"b\", b).finish(),\n        }\n    }\n}")
+    mk = lambda m: ("match i0 %% 6 { 0 => %s::E::Plain, 1 => %s::E::Custom(%s), 2 => %s::E::After, 3 => %s::E::AfterTuple(%s), 4 => %s::E::OwnNamed { a: %s }, "  # noqa
+                    "_ => %s::E::AfterNamed { a: %s, b: %s } }" % (m, m, P % "i1", m, m, P % "i2", m, P % "i1", m, P % "i1", P % "i2"))
+    cov = "        kani::cover!(i0 % 6 == 3, \"reach AfterTuple\");\n        kani::cover!(i0 % 6 == 5, \"reach AfterNamed\");\n"
+    return [Shape("%s_variant_formats_mixed" % prefix, module(dm, sd, pair_harness("same_as_std_debug", mk, 3, cov)), H(2), dm.replace("\n", " "),
+                  exercises=["impl/src/fmt/debug.rs::expand_enum (per-variant attributes)"], crate_attrs=CRATE_ATTRS)]
+
+
 def shapes(tier):
     TIER[0] = tier
-    out = plain_pairs() + skip_pairs() + field_format_pairs()
+    out = plain_pairs() + skip_pairs() + field_format_pairs() + variant_format_pairs()
     for s in out:
         s.source = s.source.replace("use core::fmt::{self, FormattingOptions, Write as _};\n\n",
                                     "use core::fmt::{self, FormattingOptions, Write as _};\npub static ANCHOR_PROBE: Probe = Probe { id: 5 };\n\n", 1)
